@@ -6,6 +6,8 @@ import os
 import numpy as np
 
 from .. import engine, refmodel as rm
+from .. import histories
+from ..histories import t_callhist        # worker task of the history harness (mc/histories.py)
 
 PID = 'C18'
 MOD = 'mc.props.c18'
@@ -289,6 +291,8 @@ def chk_history(case, acc, seed):
 DISPATCH = {'seed': chk_seed, 'reject': chk_reject, 'cosmic': chk_cosmic, 'history': chk_history}
 
 
+DISPATCH['histop'] = histories.chk_case
+
 def t_one(arg, acc):
     DISPATCH[arg['case']['kind']](arg['case'], acc, arg['seed'])
 
@@ -315,6 +319,7 @@ def run(tier, seed, acc, procs=None):
     for fname in FRAMES:
         for sd in (0, 1, 5):
             tasks.append(('t_one', {'seed': seed, 'case': {'kind': 'history', 'frame': fname, 'seed': sd}}))
+    tasks += histories.tasks_for(PID, seed)        # pairwise call histories over the operations this property is anchored in
     engine.run_parallel(MOD, tasks, acc, procs)
     return {
         'rule': f'seeds 0..{n - 1} x frames (4x4, 3x5, 16x16) x levels (0, 1/2, 3, 50, 1e4) x 6 seeded models: same seed -> identical '
@@ -333,6 +338,9 @@ def run(tier, seed, acc, procs=None):
 
 
 def replay(case, acc):
+    if case.get('kind') == 'histop':
+        import os as _os
+        return histories.chk_case(case, acc, int(_os.environ.get('VERIF_SEED', '0') or 0))
     seed = int(os.environ.get('VERIF_SEED', '0') or 0)
     if case['kind'] == 'agg':
         t_model({'tier': 'quick' if case['nseeds'] == 64 else 'thorough', 'seed': seed, 'model': case['model']}, acc)
